@@ -4,6 +4,7 @@ import (
 	"fmt"
 	"go/types"
 	"os"
+	"sort"
 	"strings"
 	"time"
 	"verif/checker/internal/absint"
@@ -601,6 +602,12 @@ func anyOfMembers(tier string, cfg gen.Config) []member {
 				Spec: &fam.Spec{Kind: "object", AnyOf: []*fam.Spec{
 					{Kind: "object", Props: []*fam.Prop{{Label: "text", Spec: &fam.Spec{Kind: "string", Kw: []string{"maxLength"}}, Required: true}}},
 					{Kind: "object", Props: []*fam.Prop{{Label: "text2", SameAs: "text", Spec: &fam.Spec{Kind: "string", Kw: []string{"minLength"}}, Required: true}}}}}}}}})
+			// THREE primitive branches of which the first and the last agree and the middle one differs (string, integer, string): the
+			// union is not a string — every branch counts when the common type of the branches is looked for
+			for _, pos := range []string{"required", "def-required"} {
+				sp := &fam.Spec{Kind: "any", AnyOf: []*fam.Spec{{Kind: "string", Kw: []string{"maxLength"}}, {Kind: "integer"}, {Kind: "string"}}}
+				out = append(out, member{name: "anyOf of three primitive branches, the middle one of another type " + pos, cfg: cfg, root: place(sp, pos)})
+			}
 			// an anyOf DEFINITION that two properties refer to (one type, generated once)
 			var bs3 []*fam.Spec
 			for i := 0; i < n; i++ {
@@ -675,3 +682,25 @@ func reservedNameMembers(cfg gen.Config) []member {
 }
 
 func typesStringSlice() types.Type { return types.NewSlice(types.Typ[types.String]) }
+
+// unionTypeIssues: a member whose root property is a union of primitive branches of DIFFERENT types declares no named type with a
+// primitive underlying type — such a type would refuse the values of the other branches (the union is interface{}).
+func unionTypeIssues(name string, fm *fam.FileModel) []fam.Issue {
+	if !strings.HasPrefix(name, "anyOf of three primitive branches") {
+		return nil
+	}
+	var out []fam.Issue
+	var names []string
+	for tn := range fm.Types {
+		names = append(names, tn)
+	}
+	sort.Strings(names)
+	for _, tn := range names {
+		td := fm.Types[tn]
+		switch td.Type {
+		case "string", "int", "int64", "float64", "bool":
+			out = append(out, fam.Issue{Rule: "A-MAP", Construct: "a union of branches of different primitive types is declared as one of them", Msg: fmt.Sprintf("type %s is declared as %s although the schema is an anyOf of string, integer and string branches: a value the integer branch accepts cannot be decoded (every branch counts when the common type of the branches is looked for)", tn, td.Type)})
+		}
+	}
+	return out
+}
